@@ -235,9 +235,21 @@ def arith_worker(job):
             R.violation("subset-sum-differs", "plain subset-sum hash differs from the reference", backend=be, bits=bits)
         if L:
             try:
-                sec = gh.ggh_hash([(PrivValBool(b) if rnd.random() < 0.5 else PrivVal(b)) for b in bits])
+                # secret bits of both types, and lists that mix them with plain bits (constant padding around a secret message):
+                # all secret / plain prefix / plain suffix / interleaved
+                shape = rnd.choice(["all-secret", "all-secret", "plain-prefix", "plain-suffix", "interleaved"])
+                cut = rnd.randint(1, max(1, L - 1))
+                def _mk(ix, b):
+                    plain_here = ((shape == "plain-prefix" and ix < cut and L > 1) or (shape == "plain-suffix" and ix >= cut) or
+                                  (shape == "interleaved" and ix > 0 and rnd.random() < 0.5))
+                    if plain_here:
+                        return b
+                    return PrivValBool(b) if rnd.random() < 0.5 else PrivVal(b)
+                R.count("subset_sum_secret_shape:" + shape)
+                sec = gh.ggh_hash([_mk(ix, b) for ix, b in enumerate(bits)])
             except Exception as e:  # noqa
-                R.violation("subset-sum-raises-on-secret-bits", "traced subset-sum hash over secret bits raised %s: %s" % (type(e).__name__, str(e)[:100]), backend=be, bits=bits)
+                R.violation("subset-sum-raises-on-secret-bits" if shape == "all-secret" else "subset-sum-raises-on-mixed-plain-and-secret-bits",
+                            "traced subset-sum hash over %s bits raised %s: %s" % (shape, type(e).__name__, str(e)[:100]), backend=be, bits=bits, shape=shape)
                 continue
             if sec.value % p != want or (sec.value - recorder.ev(sec.lc)) % p:
                 R.violation("subset-sum-differs", "traced subset-sum hash %s, reference %s" % (sec.value % p, want), backend=be, bits=bits)
@@ -301,6 +313,14 @@ def select_worker(job):
         R.count("selection_paths_judged")
         name = rep["name"]
         R.sample(dict(path=path, selected=name, params=rep.get("params", rep.get("error"))), cap=8)
+        # "the backend actually selected" is what the three-stage rule (restated in C19) gives for this configuration and what the
+        # field in effect confirms - not merely what the runtime reports as its name
+        exp = C19.expected(list(pre), env, dict(flatbuffers=True, qaptools=False, libsnark=False))
+        if exp["kind"] == "select" and len(exp["names"]) == 1:
+            en = next(iter(exp["names"]))
+            if C19.FIELD.get(en) is not None and rep["modulus"] == C19.FIELD[en] and en != name:
+                det["selected_by_rule"] = en
+                name = en
         if name in digest:
             if rep.get("params") != digest[name]:
                 R.violation(classify_sel(name, rep, digest), "backend %s selected (%s) but Poseidon uses %s; the set registered for it is R_F=%d R_P=%d a=%d" % (
